@@ -715,5 +715,3 @@ func (g *goTranslator) expr(e *Expr, old bool) (string, string, bool) {
 	}
 	return "", "", false
 }
-
-func selftest(args []string) int { return 2 }
